@@ -713,6 +713,34 @@ func denseSections(r *vlib.Run) {
 		}
 		q := randOrth(rng, n, 1-2*rng.Intn(2))
 		a := matMul(n, matMul(n, q, t), matT(n, q))
+		tolEig := 1e-8
+		if rng.Intn(12) == 0 {
+			// exactly representable matrices with a repeated eigenvalue: c*I, and diag(c,...,c,d) under a
+			// coordinate permutation. A multiple root is only determined to about eps^(1/3) by a
+			// characteristic polynomial, hence the looser tolerance; the sign and the multiset are not in doubt.
+			cval := float64(rng.Intn(9)-4) / 2
+			if cval == 0 {
+				cval = 1.5
+			}
+			dval := cval
+			kind = "scalar-matrix"
+			if rng.Intn(2) == 0 {
+				dval = cval + float64(1+rng.Intn(4))
+				kind = "repeated-eigenvalue-diagonal"
+			}
+			a = make([]float64, n*n)
+			want = want[:0]
+			pos := rng.Intn(n)
+			for i := 0; i < n; i++ {
+				v := cval
+				if i == pos {
+					v = dval
+				}
+				a[i*n+i] = v * scale
+				want = append(want, complex(v*scale, 0))
+			}
+			tolEig = 1e-3
+		}
 		got := api.eig(a)
 		w := witnessMat(api, a, map[string]interface{}{"chosen_eigenvalues": fmt.Sprint(want), "returned": fmt.Sprint(got), "kind": kind})
 		best := math.Inf(1)
@@ -732,7 +760,7 @@ func denseSections(r *vlib.Run) {
 			best = math.Min(best, worst)
 		}
 		cmax(c, "eigenvalues.error."+api.name, best/scale)
-		if !(best <= 1e-8*scale) {
+		if !(best <= tolEig*scale) {
 			c.Violationf(api.name+".Eigenvalues/multiset", w, "eigenvalue multiset differs from the chosen one by %g (scale %g)", best, scale)
 		}
 		c.Count(api.name+".Eigenvalues", 1)
